@@ -69,8 +69,11 @@ impl TryFrom<&str> for HpoTermId {
         if s.len() < 4 {
             return Err(HpoError::ParseIntError);
         }
+        // `get` instead of indexing: byte 3 might not be a char boundary
+        // for non-ASCII input, which must be an error, not a panic
+        let number = s.get(3..).ok_or(HpoError::ParseIntError)?;
         Ok(HpoTermId {
-            inner: s[3..].parse::<u32>()?,
+            inner: number.parse::<u32>()?,
         })
     }
 }
